@@ -50,6 +50,7 @@ Lemma finalize_ok_dims w v md f w' :
 Proof.
   unfold finalize. destruct (w_finalized w); [discriminate|].
   destruct ((U16MAX <? vt_width v) || (U16MAX <? vt_height v)) eqn:E; [discriminate|].
+  destruct (param_sets_too_long (w_vconfig w)) eqn:Gps; [discriminate|].
   intros _. unfold U16MAX in E. lia.
 Qed.
 
